@@ -241,6 +241,8 @@ def r4(chk, ctx):
 
 
 def run(chk, ctx):
+    from . import c17
+    c17.r1(chk, ctx)      # 'names iff 1..80 characters without the forbidden characters'
     r1(chk, ctx)
     r2_r3(chk, ctx)
     r4(chk, ctx)
